@@ -673,14 +673,18 @@ func init() {
 		Variants: lab.AllVariants,
 		Chunks:   func(c *drv.Ctx) int { return c.Pick(1, 8) },
 		Opts: func(c *drv.Ctx) lab.CollectOpts {
-			return lab.CollectOpts{N: c.Pick(56, 150), Profiles: []string{"plain", "liney", "switchy", "deep", "backtracky"},
+			return lab.CollectOpts{N: c.Pick(72, 160), Profiles: []string{"switchy", "plain", "switchy", "liney", "deep", "switchy", "backtracky"},
 				Inputs: c.Pick(12, 20), Hostile: true, Long: true, MaxRune: true}
 		},
 		Modes: func(c *drv.Ctx, pt *Point, v lab.Variant) []proto.Mode {
-			if !hostile(pt.Input) {
-				return nil
-			}
 			heavy := pt.Ref.Budget || pt.Ref.Stats.Steps > memoFreeBudget(c)
+			if !hostile(pt.Input) {
+				// ordinary inputs run too ("every Go string"), once per option set
+				if v.NoAST && heavy {
+					return nil
+				}
+				return []proto.Mode{memoMode}
+			}
 			if v.NoAST {
 				if heavy {
 					return nil
@@ -693,9 +697,7 @@ func init() {
 			return []proto.Mode{memoMode, noMemoMode}
 		},
 		Judge: func(c *drv.Ctx, pt *Point, l *lab.Lab) []Mismatch {
-			if !hostile(pt.Input) {
-				return nil
-			}
+			isHostile := hostile(pt.Input)
 			var ms []Mismatch
 			n := len(pt.Runes)
 			for _, v := range lab.AllVariants {
@@ -705,7 +707,10 @@ func init() {
 						continue
 					}
 					c.Stats.Eval()
-					if c.Stats.Nontrivial(pt.key(v.Name, modeKey(m))) {
+					if !isHostile {
+						c.Stats.Class("ordinary_input_runs")
+					}
+					if isHostile && c.Stats.Nontrivial(pt.key(v.Name, modeKey(m))) {
 						for _, k := range hostileClasses(pt.Input) {
 							c.Stats.Class("nt_input_" + k)
 						}
@@ -743,7 +748,7 @@ func init() {
 	}
 	labProps["C13"] = c13
 	drv.Register("C13",
-		"well-formed grammars (all profiles, U+10FFFF allowed in terminals) under all eight option sets and both memo modes x hostile inputs only: empty, NUL, invalid UTF-8 (lone continuation/truncated sequences, 0xFF spliced into sampled strings), non-BMP runes, U+10FFFF, >=1000-rune repetitions; no panic, no worker death; every token satisfies 0<=begin<=end<=len([]rune(input)), tokens are properly nested in post-order, the last token is the entry rule at offset 0; the error token lies within the input; for the default parser the tokens equal the reference derivation (so slicing the rune sequence by a token reproduces what it matched). Every case is non-trivial by construction of the input filter; distinct = (grammar, entry, input, option set, memo mode).",
+		"well-formed grammars (all profiles, U+10FFFF allowed in terminals) under all eight option sets x every generated input (both memo modes for the hostile ones: empty, NUL, invalid UTF-8 (lone continuation/truncated sequences, 0xFF spliced into sampled strings), non-BMP runes, U+10FFFF, >=1000-rune repetitions); no panic, no worker death; every token satisfies 0<=begin<=end<=len([]rune(input)), tokens are properly nested in post-order, the last token is the entry rule at offset 0; the error token lies within the input; for the default parser the tokens equal the reference derivation (so slicing the rune sequence by a token reproduces what it matched). Non-trivial: the input is hostile (classes above); ordinary inputs are evaluated and counted separately; distinct = (grammar, entry, input, option set, memo mode).",
 		[]string{"a hang is reported as inconclusive, never as a violation", "the shipped grammars' parsers (peg, calculator, C, Java, fexl) are exercised with the hostile set in both tiers and by a native coverage-guided campaign in the thorough tier"},
 		func(c *drv.Ctx) error {
 			if err := runLabProp(c, c13); err != nil || len(c.Violations) > 0 {
